@@ -151,6 +151,7 @@ class Ctx:
         self.exc = []             # list of (cond, exc_name) raised by this statement
         self.guard = z3.BoolVal(True)      # blocking condition (event set, lock free)
         self.choice = z3.BoolVal(True)     # constraint on the solver-chosen nondeterministic value of this step
+        self.kwargs = {}
 
     def get(self, key):
         self.m.accessed.add(key)
@@ -260,6 +261,8 @@ class Machine:
             if isinstance(spec, tuple) and spec[0] == "ast":
                 fr = spec[2] if len(spec) > 2 else frame
                 k = self.kind_of(thread, spec[1], fr)
+            elif isinstance(spec, tuple) and spec[0] == "dyn":
+                k = spec[1](self.dummy_ctx(thread, frame))
             else:
                 k = spec
             if k.kind in ("obj", "const"):
@@ -292,6 +295,9 @@ class Machine:
         return key
 
     def kind_of(self, thread, node_ast, frame):
+        return Evaluator(self).ev(node_ast, self.dummy_ctx(thread, frame), frame)
+
+    def dummy_ctx(self, thread, frame):
         class Dummy(dict):
             def __init__(d, m, t):
                 d.m, d.t = m, t
@@ -304,8 +310,7 @@ class Machine:
                 v = z3.Bool("dummy!" + key) if sort == "bool" else z3.BitVec("dummy!" + key, BW)
                 d[key] = v
                 return v
-        ctx = Ctx(self, Dummy(self, thread), 0, thread, frame, bv(0))
-        return Evaluator(self).ev(node_ast, ctx, frame)
+        return Ctx(self, Dummy(self, thread), 0, thread, frame, bv(0))
 
     def _next_fid(self, thread):
         thread._fid = getattr(thread, "_fid", 0) + 1
@@ -820,6 +825,7 @@ class Evaluator:
                         return self.ev(body[0].value, ctx, f2)
             if h is None:
                 raise TranslationError("method %s of %r (line %d) is not modelled" % (node.func.attr, recv, node.lineno))
+            ctx.kwargs = {k.arg: self.ev(k.value, ctx, frame) for k in node.keywords}
             return h(self, ctx, recv, [self.ev(a, ctx, frame) for a in node.args])
         raise TranslationError("call form at line %d" % node.lineno)
 
@@ -986,7 +992,12 @@ class Encoder:
             elif k == "enter":
                 copies, parent = node.info
                 for key, spec in copies:
-                    val = spec if isinstance(spec, AV) else ev.ev(spec[1], ctx, spec[2] if len(spec) > 2 else parent)
+                    if isinstance(spec, AV):
+                        val = spec
+                    elif spec[0] == "dyn":
+                        val = spec[1](ctx)
+                    else:
+                        val = ev.ev(spec[1], ctx, spec[2] if len(spec) > 2 else parent)
                     kind, cls = t.locals[key]
                     ctx.set(key, ev.coerce(val, kind, cls).term)
                 nxt = bv(node.succ)
@@ -1013,6 +1024,9 @@ class Encoder:
                 nxt = bv(0)
             elif k == "jump":
                 nxt = bv(node.succ)
+            elif k == "hbranch":
+                c = node.info(ctx)
+                nxt = z3.If(c, bv(node.succ), bv(node.succ_false))
             elif k == "set":
                 # harness node: list of (key, term-producing function)
                 for key, f in node.info:
@@ -1045,9 +1059,11 @@ class Encoder:
             newpc = z3.If(cond, newpc_e, newpc)
             outcome = z3.If(cond, outcome_e if outcome_e is not None else outcome, outcome)
             excv = z3.If(cond, code, excv)
-            # a statement that raises has no other effect (operations raise before they mutate)
-            for key in list(upd.keys()):
-                upd[key] = z3.If(cond, state[key], upd[key])
+            # a statement that raises has no other effect (operations raise before they mutate);
+            # the release of a lock on the way out of a with-block is the exception to that rule
+            if k != "release_exc":
+                for key in list(upd.keys()):
+                    upd[key] = z3.If(cond, state[key], upd[key])
         upd[pc] = newpc
         upd[t.name + ".outcome"] = outcome
         upd[t.name + ".exc"] = excv
@@ -1111,6 +1127,8 @@ class Encoder:
         """adds the K-step transition system to `solver`; returns (states, tids, nds)"""
         states = [self.state_vars(0)]
         for key, term in self.init.items():
+            if isinstance(term, str) and term == "free":
+                continue                      # arbitrary initial value (constrained by the harness)
             solver.add(states[0][key] == term)
         tids, nds = [], []
         NT = self.nthreads
